@@ -215,6 +215,12 @@ def long_rows(rates, accums):
                         continue
                     for accum in accums:
                         rows.append((rate, accel, jerk, ticks, accum))
+                    # start accumulators that make the move end exactly one count below, on and
+                    # one count above a step boundary, millions of steps out (the quotient
+                    # total / 2^31 then needs more than 53 bits)
+                    base = t3_total_closed(rate, accel, jerk, 0, ticks)
+                    for target in (TWO31 - 1, TWO31 - 2, 0, 1):
+                        rows.append((rate, accel, jerk, ticks, (target - base) % TWO31))
     return rows
 
 
@@ -292,7 +298,7 @@ def run(ctx):
 
 
 def replay(case):
-    if case.get("kind") == "calc_history":
+    if case.get("kind") in ("calc_history", "calc_fresh"):
         from .. import calcseq             # pylint: disable=import-outside-toplevel
         return calcseq.replay(case)
     rate, accel, jerk = case["rate"], case["accel"], case["jerk"]
